@@ -470,6 +470,7 @@ def _main(prop, args, t0):
         except HarnessFault:
             # a violation is never hidden behind a vacuity fault
             cov.setdefault("states", 1)
+            os.makedirs(EVIDENCE_DIR, exist_ok=True)
             with open(os.path.join(EVIDENCE_DIR, prop.ID + ".json"), "w") as f:
                 json.dump(ev, f, indent=1)
         for v in new[:3]:
